@@ -105,8 +105,8 @@ class C17:
     LEVEL = "exploration"
     HANG_IS_VIOLATION = True   # "... and all of these terminate"
     TIERS = {
-        "quick": {"runs": 4000000, "budget_s": 150, "chunk": 10000, "run_timeout_s": 20},
-        "thorough": {"runs": 40000000, "budget_s": 1500, "chunk": 40000, "run_timeout_s": 20},
+        "quick": {"runs": 4000000, "budget_s": 150, "chunk": 10000, "run_timeout_s": 30},
+        "thorough": {"runs": 40000000, "budget_s": 1500, "chunk": 40000, "run_timeout_s": 30},
     }
     RULE = ("cases: 0-8 simulator-owned items (spans from {0,1,2,3,5,10,100}, finals with ties, identical "
             "intervals, already-definitive items) x a per-item tightening plan (which end moves, by how much, per "
